@@ -261,8 +261,8 @@ def conditions(tier):
             add(f'C17.tofile[{c},n={n},chunk={ch}]', h_tofile(c, n, ch), f'all {n}-bit contents; chunk size {ch} bits via the guarded hook (crosses the chunk boundary)', n=n)
             if n in (17, 20, 33):
                 add(f'C17.tofile[{c},n={n},chunk={ch},lsb0]', h_tofile(c, n, ch, True), f'all {n}-bit contents; chunk size {ch} bits via the guarded hook; options.lsb0 set', n=n)
-    for c in (['Bits'] if q else ['Bits', 'BitArray', 'ConstBitStream', 'BitStream']):
-        for nb in ([0, 1, 2] if q else [0, 1, 2, 3]):
+    for c in (['Bits', 'BitArray'] if q else ['Bits', 'BitArray', 'ConstBitStream', 'BitStream']):
+        for nb in (([0, 1, 2] if c == 'Bits' else [2]) if q else [0, 1, 2, 3]):
             for via in ('filename', 'handle') + (('handle-r+b',) if nb == 2 else ()):
                 add(f'C17.file-window[{c},{via},bytes={nb}]', h_file_window(c, nb, via), f'all {nb}-byte files x offset,length in [-2,{8 * nb + 2}] or None', setup=F.install_fakes, nbytes=nb)
         for data in ([b'\xa5\x3c'] if q else [b'', b'\xa5', b'\xa5\x3c', b'\x01\x02\x03']):
